@@ -43,12 +43,60 @@ impl Decoder for LpCodec {
     // decode_eof: tokio-util default ("bytes remaining on stream" error if a partial frame is left)
 }
 
+/// Stateful codec: one length byte (consumed as soon as it arrives, remembered in the codec), then the payload; at the
+/// end of the stream it emits one terminator frame, or a truncation error if a record is incomplete. Its end-of-stream
+/// answer depends on state kept outside the buffer, so `decode_eof` must be asked even when the buffer is empty.
+#[derive(Clone, Debug, Default)]
+pub struct StCodec {
+    need: Option<usize>,
+    ended: bool,
+}
+
+impl Decoder for StCodec {
+    type Item = Vec<u8>;
+    type Error = io::Error;
+
+    fn decode(&mut self, src: &mut BytesMut) -> Result<Option<Vec<u8>>, io::Error> {
+        if self.need.is_none() {
+            if src.is_empty() {
+                return Ok(None);
+            }
+            self.need = Some(src[0] as usize);
+            src.advance(1);
+        }
+        let n = self.need.unwrap();
+        if src.len() < n {
+            return Ok(None);
+        }
+        self.need = None;
+        Ok(Some(src.split_to(n).to_vec()))
+    }
+
+    fn decode_eof(&mut self, src: &mut BytesMut) -> Result<Option<Vec<u8>>, io::Error> {
+        if let Some(x) = self.decode(src)? {
+            return Ok(Some(x));
+        }
+        if self.need.is_some() || !src.is_empty() {
+            src.clear();
+            self.need = None;
+            self.ended = true;
+            return Err(io::Error::new(io::ErrorKind::UnexpectedEof, "record truncated"));
+        }
+        if !self.ended {
+            self.ended = true;
+            return Ok(Some(b"<END>".to_vec()));
+        }
+        Ok(None)
+    }
+}
+
 #[derive(Clone, Copy, Debug, PartialEq, Eq)]
 pub enum Which {
     Lp1,
     Lp2,
     Lines,
     Bytes,
+    Stateful,
 }
 
 impl Which {
@@ -58,6 +106,7 @@ impl Which {
             Which::Lp2 => "lp2",
             Which::Lines => "lines",
             Which::Bytes => "bytes",
+            Which::Stateful => "stateful",
         }
     }
     fn parse(s: &str) -> Which {
@@ -66,12 +115,13 @@ impl Which {
             "lp2" => Which::Lp2,
             "lines" => Which::Lines,
             "bytes" => Which::Bytes,
+            "stateful" => Which::Stateful,
             _ => panic!("codec {s}"),
         }
     }
     fn alphabet(&self) -> &'static [u8] {
         match self {
-            Which::Lp1 | Which::Lp2 => &[0, 1, 2, 3, b'a'],
+            Which::Lp1 | Which::Lp2 | Which::Stateful => &[0, 1, 2, 3, b'a'],
             _ => &[b'a', b'\n', b'\r', 0x02, 0xFF],
         }
     }
@@ -109,12 +159,37 @@ fn reference_with<C: Decoder<Error = io::Error>>(mut codec: C, data: &[u8], f: i
     }
 }
 
+/// Number of items `decode` (without end-of-stream knowledge) yields from a prefix of the stream.
+fn complete_frames(which: Which, prefix: &[u8]) -> usize {
+    fn count<C: Decoder<Error = io::Error>>(mut c: C, prefix: &[u8]) -> usize {
+        let mut buf = BytesMut::from(prefix);
+        let mut n = 0;
+        loop {
+            match c.decode(&mut buf) {
+                Ok(Some(_)) | Err(_) => n += 1,
+                Ok(None) => return n,
+            }
+            if n > prefix.len() + 8 {
+                return n;
+            }
+        }
+    }
+    match which {
+        Which::Lp1 => count(LpCodec { width: 1 }, prefix),
+        Which::Lp2 => count(LpCodec { width: 2 }, prefix),
+        Which::Lines => count(LinesCodec::default(), prefix),
+        Which::Bytes => 0,
+        Which::Stateful => count(StCodec::default(), prefix),
+    }
+}
+
 fn reference(which: Which, data: &[u8]) -> (Vec<Item>, bool) {
     match which {
         Which::Lp1 => reference_with(LpCodec { width: 1 }, data, |v| v),
         Which::Lp2 => reference_with(LpCodec { width: 2 }, data, |v| v),
         Which::Lines => reference_with(LinesCodec::default(), data, |s| s.into_bytes()),
         Which::Bytes => reference_with(BytesCodec, data, |b| b.to_vec()),
+        Which::Stateful => reference_with(StCodec::default(), data, |v| v),
     }
 }
 
@@ -133,6 +208,8 @@ pub struct Seen {
     pub none_stable_checks: u64,
     pub big_frames: u64,
     pub polls: u64,
+    pub conversions: u64,
+    pub error_order_checks: u64,
 }
 
 fn poll_stream<S: Stream>(s: Pin<&mut S>, w: &std::task::Waker) -> Poll<Option<S::Item>> {
@@ -149,7 +226,12 @@ where
 {
     reset_wakers();
     let io = MockIo::reader(data.to_vec(), script.to_vec());
-    let mut framed = Box::pin(Framed::new(io, codec));
+    let mut framed = Framed::new(io, codec);
+    // at one poll index (derived from the case) the Framed is rebuilt around the same transport, codec and buffers
+    // through one of its conversion methods: the stream must not notice
+    let h = vh_core::fnv(data) ^ (script.len() as u64).wrapping_mul(0x9E37_79B9_7F4A_7C15) ^ script_code(script).len() as u64;
+    let xform_kind = (h >> 3) % 4;
+    let xform_at = (h >> 11) % (script.len() as u64 + 2);
     let mut items: Vec<Item> = Vec::new();
     let mut ended = false;
     let budget = (script.len() + data.len() + want_len) as u64 * 2 + 64;
@@ -158,8 +240,16 @@ where
         let (w, rec) = new_waker(polls);
         polls += 1;
         seen.polls += 1;
-        framed.as_mut().get_mut().io_mut().begin_call();
-        let r = poll_stream(framed.as_mut(), &w);
+        if polls - 1 == xform_at && xform_kind != 0 {
+            seen.conversions += 1;
+            framed = match xform_kind {
+                1 => framed.into_map_io(|io| io),
+                2 => Framed::from_parts(framed.into_parts()),
+                _ => framed.into_map_codec(|c| c),
+            };
+        }
+        framed.io_mut().begin_call();
+        let r = poll_stream(Pin::new(&mut framed), &w);
         match r {
             Poll::Pending => {
                 seen.pending_polls += 1;
@@ -201,7 +291,7 @@ where
         for k in 0..2 {
             let (w, _) = new_waker(10_000 + k);
             seen.none_stable_checks += 1;
-            match poll_stream(framed.as_mut(), &w) {
+            match poll_stream(Pin::new(&mut framed), &w) {
                 Poll::Ready(None) => {}
                 other => {
                     return Err(Fail {
@@ -235,6 +325,7 @@ fn actual(which: Which, data: &[u8], script: &[ReadStep], want_len: usize, seen:
         Which::Lp2 => drive(LpCodec { width: 2 }, data, script, want_len, |v| v, seen),
         Which::Lines => drive(LinesCodec::default(), data, script, want_len, |s| s.into_bytes(), seen),
         Which::Bytes => drive(BytesCodec, data, script, want_len, |b| b.to_vec(), seen),
+        Which::Stateful => drive(StCodec::default(), data, script, want_len, |v| v, seen),
     }
 }
 
@@ -303,6 +394,45 @@ pub fn check_case(which: Which, data: &[u8], script: &[ReadStep], seen: &mut See
         });
     }
     seen.io_errors_surfaced += io_errs as u64;
+    // stream order: an I/O error is surfaced after every frame that was complete in the bytes delivered before the
+    // failing read (and decodable without knowing that the stream ends)
+    if which != Which::Bytes && injected > 0 {
+        let mut delivered = 0usize;
+        let mut nth = 0;
+        for st in script {
+            match st {
+                ReadStep::Data(k) => delivered = (delivered + *k).min(data.len()),
+                ReadStep::Pending => {}
+                ReadStep::Err(_) => {
+                    nth += 1;
+                    let complete = complete_frames(which, &data[..delivered]);
+                    // position of the nth injected error among the items
+                    let mut seen_errs = 0;
+                    let mut before = 0usize;
+                    for it in &got {
+                        if *it == Err(INJECTED) {
+                            seen_errs += 1;
+                            if seen_errs == nth {
+                                break;
+                            }
+                        } else {
+                            before += 1;
+                        }
+                    }
+                    seen.error_order_checks += 1;
+                    if seen_errs == nth && before < complete {
+                        return Err(Fail {
+                            sig: "C13:io-error-overtakes-frames".into(),
+                            desc: format!(
+                                "the {nth}. I/O error was surfaced after {before} item(s) although {complete} frame(s) were complete in the {delivered} bytes delivered before the failing read; items={}",
+                                show(&got)
+                            ),
+                        });
+                    }
+                }
+            }
+        }
+    }
 
     if which == Which::Bytes {
         // frame boundaries legitimately follow the reads
@@ -462,7 +592,7 @@ pub fn run(args: &Args, rep: &mut Report) {
     let n_random = args.extra_u64("random", n_random);
 
     let mut idx = 0u64;
-    for which in [Which::Lp1, Which::Lines, Which::Bytes] {
+    for which in [Which::Lp1, Which::Lines, Which::Bytes, Which::Stateful] {
         let alpha = which.alphabet();
         for len in 0..=la {
             let total = (alpha.len() as u64).pow(len as u32);
@@ -550,7 +680,7 @@ pub fn run(args: &Args, rep: &mut Report) {
         if !args.mine(i) {
             continue;
         }
-        let which = *rng.pick(&[Which::Lp2, Which::Lines, Which::Bytes]);
+        let which = *rng.pick(&[Which::Lp2, Which::Lines, Which::Bytes, Which::Stateful]);
         let target = if args.slow() { 600 + rng.usize(3000) } else { 1024 + rng.usize(64 * 1024) };
         let mut data = Vec::new();
         while data.len() < target {
@@ -569,6 +699,11 @@ pub fn run(args: &Args, rep: &mut Report) {
                         data.push(b'\r');
                     }
                     data.push(b'\n');
+                }
+                Which::Stateful => {
+                    let n = n.min(255);
+                    data.push(n as u8);
+                    data.extend((0..n).map(|k| (k * 11 + i as usize) as u8));
                 }
                 _ => data.extend((0..n.max(1)).map(|k| (k * 13) as u8)),
             }
@@ -617,5 +752,7 @@ pub fn run(args: &Args, rep: &mut Report) {
     rep.add("obs_end_of_stream_error_cases", seen.eos_error_cases);
     rep.add("obs_none_stability_polls", seen.none_stable_checks);
     rep.add("obs_frames_over_8k", seen.big_frames);
+    rep.add("obs_mid_stream_conversions", seen.conversions);
+    rep.add("obs_io_error_order_checks", seen.error_order_checks);
     rep.add("obs_polls", seen.polls);
 }
